@@ -32,6 +32,35 @@ def _vals(record):
     return out
 
 
+def perturb(vals):
+    """Reduced-precision replays: move parameter / gradient values off the coarse dyadic grid the solver's witness tends to sit on (the symbolic violation is
+    generic in the values, rounding being uninterpreted), deterministically."""
+    import math
+
+    out = dict(vals)
+    for n, (k, v) in enumerate(sorted(vals.items())):
+        if isinstance(v, float) and (k.startswith("w") or (k.startswith("g") and "p" in k)) and not k.startswith("wd"):
+            out[k] = v * (1.0 + 1e-2 * math.sin(12.9898 * (n + 1))) + 1e-3 * math.cos(78.233 * (n + 1))
+    return out
+
+
+def lowp_problem(got, exp, w0, comm, communicate_params):
+    """got/exp/w0: float64 tensors.  With communication in bfloat16/float16 the communicated quantity (the update, or the parameter itself) must be exactly the
+    serial quantity rounded to that dtype: neither finer (no rounding / wider dtype) nor coarser."""
+    import torch
+
+    dt = torch.bfloat16 if comm == "BF16" else torch.float16
+    q_got = got if communicate_params else got - w0
+    q_exp = exp if communicate_params else exp - w0
+    want = q_exp.to(dt).to(torch.float64)
+    tol = 1e-9 * (want.abs() + w0.abs()) + 1e-12
+    if ((q_got - want).abs() > tol).any():
+        i = int(((q_got - want).abs() - tol).argmax())
+        return (f"communicated quantity {q_got.reshape(-1)[i].item():.10g} is not the serial quantity {q_exp.reshape(-1)[i].item():.10g} rounded to {dt} "
+                f"({want.reshape(-1)[i].item():.10g})")
+    return None
+
+
 def _build(cfg, vals, distributed_config=None, given_params=None):
     import torch
     from distributed_shampoo.distributed_shampoo import DistributedShampoo
@@ -111,6 +140,8 @@ def replay(record):
     cfg = info["cfg"]
     kind = (info.get("signature") or {}).get("kind")
     vals = _vals(record)
+    if cfg.get("comm", "FP32") in ("BF16", "FP16"):
+        vals = perturb(vals)
     world = cfg["world"]
     # serial oracle
     params, opt = _build(cfg, vals)
@@ -159,11 +190,9 @@ def replay(record):
                         if a != outs[0][pi]:
                             problems.append(f"attempt {att + 1}: rank {r} param {pi} differs from rank 0 (replicas not identical)")
                             break
-                        unit = 2.0 ** -7 if cfg["comm"] == "BF16" else 2.0 ** -10
-                        w0 = start[pi]
-                        scale = (b - w0).abs() if not cfg.get("communicate_params", False) else b.abs()
-                        if ((ta - b).abs() > unit * scale + 1e-6).any():
-                            problems.append(f"attempt {att + 1}: rank {r} param {pi} is off the serial run by more than the rounding of the communicated quantity")
+                        pr = lowp_problem(ta.reshape(b.shape), b, start[pi], cfg["comm"], cfg.get("communicate_params", False))
+                        if pr:
+                            problems.append(f"attempt {att + 1}: rank {r} param {pi}: {pr}")
                             break
                     elif not torch.allclose(ta, b, rtol=1e-6, atol=1e-9):
                         problems.append(f"attempt {att + 1}: rank {r} param {pi} differs from the serial run by {(ta - b).abs().max().item():.3e}")
